@@ -310,17 +310,19 @@ end windows
 section dkep
 open BeyondVerif.Lemmas.Dkep
 
-/-- **Finite Δv with the requested geometry**: outside the `isclose(ratio, 1)` shortcut and for a non-zero `dv`,
-the velocity after the maneuver — `(v + dv_t)` along the old velocity, `dv_w` along the angular momentum — has
-magnitude `v_final = v + µ da / (2 v a²)` and makes the angle `dangle = √(di² + dΩ² sin² i)` with the old one:
-`v + dv_t = v_final cos(dangle)`, `dv_w = |v_final sin(dangle)|`; and `dv_t² + dv_w² = dv²` (law of cosines). -/
-theorem dkep2dv_triangle (μ a i v da di dOmega : ℝ) (hdv : dkepDv μ a i v da di dOmega ≠ 0)
-    (hb : ¬ |dkepRatio μ a i v da di dOmega - 1| ≤ 1.0e-8 + 1.0e-5 * |(1 : ℝ)|) :
+/-- **Finite Δv with the requested geometry** (every input, no side condition): the velocity after the maneuver —
+`v + dv_t` along the old velocity, `dv_w` along the angular momentum — has magnitude
+`v_final = v + µ da / (2 v a²)` and makes the angle `dangle = √(di² + dΩ² sin² i)` with the old one:
+`v + dv_t = v_final cos(dangle)`, `dv_w = |v_final sin(dangle)| ≥ 0`; the Δv itself closes the triangle
+(law of cosines): `dv_t² + dv_w² = v² + v_final² − 2 v v_final cos(dangle)`. -/
+theorem dkep2dv_triangle (μ a i v da di dOmega : ℝ) :
     v + dkepDvT μ a i v da di dOmega = dkepVFinal μ a i v da di dOmega * Real.cos (dkepDangle μ a i v da di dOmega) ∧
     dkepDvW μ a i v da di dOmega = |dkepVFinal μ a i v da di dOmega * Real.sin (dkepDangle μ a i v da di dOmega)| ∧
     (v + dkepDvT μ a i v da di dOmega) ^ 2 + dkepDvW μ a i v da di dOmega ^ 2 = dkepVFinal μ a i v da di dOmega ^ 2 ∧
-    dkepDvT μ a i v da di dOmega ^ 2 + dkepDvW μ a i v da di dOmega ^ 2 = dkepDv μ a i v da di dOmega ^ 2 := by
-  have hw := dvW_of_not_close μ a i v da di dOmega hdv hb
+    dkepDvT μ a i v da di dOmega ^ 2 + dkepDvW μ a i v da di dOmega ^ 2
+      = v ^ 2 + dkepVFinal μ a i v da di dOmega ^ 2
+        - 2 * v * dkepVFinal μ a i v da di dOmega * Real.cos (dkepDangle μ a i v da di dOmega) := by
+  have hw := dkepDvW_eq μ a i v da di dOmega
   have ht : v + dkepDvT μ a i v da di dOmega
       = dkepVFinal μ a i v da di dOmega * Real.cos (dkepDangle μ a i v da di dOmega) := by
     rw [dkepDvT_eq]; ring
@@ -328,14 +330,13 @@ theorem dkep2dv_triangle (μ a i v da di dOmega : ℝ) (hdv : dkepDv μ a i v da
   · rw [ht, hw, sq_abs]
     have := Real.sin_sq_add_cos_sq (dkepDangle μ a i v da di dOmega)
     linear_combination (dkepVFinal μ a i v da di dOmega ^ 2) * this
-  · rw [hw, sq_abs, dv_sq]
+  · rw [hw, sq_abs, radicand, dkepDvT_eq]
 
-/-- In the `isclose` shortcut the out-of-plane component is 0 whatever was requested (faithful to the code;
-this is where a small requested plane change is dropped — see known finding C17-dkep2dv-cancellation). -/
-theorem dkep2dv_isclose_branch (μ a i v da di dOmega : ℝ)
-    (hb : |dkepRatio μ a i v da di dOmega - 1| ≤ 1.0e-8 + 1.0e-5 * |(1 : ℝ)|) :
-    dkepDvW μ a i v da di dOmega = 0 := by
-  rw [dkepDvW_eq, if_pos hb]
+/-- no increment requested: no Δv at all (the pre-fix code returned NaN here) -/
+theorem dkep2dv_zero (μ a i v : ℝ) : dkepDvT μ a i v 0 0 0 = 0 ∧ dkepDvW μ a i v 0 0 0 = 0 := by
+  constructor
+  · rw [dvT_pure_a]; simp
+  · rw [dkepDvW_eq, dkepDangle_eq]; simp
 
 /-- **An increment `da` is realised to first order, at any point of the orbit**: with `a` and `v` related by
 vis-viva at radius `r` (`a = µ / (2µ/r − v²)`), the semi-major axis reached after adding the tangential
@@ -365,16 +366,6 @@ theorem dkep2aol_splits (μ a i v da di dOmega : ℝ) (h : di ≠ 0 ∨ dOmega *
     Real.cos (dkep2aol i di dOmega) * dkepDangle μ a i v da di dOmega = di ∧
     Real.sin (dkep2aol i di dOmega) * dkepDangle μ a i v da di dOmega = dOmega * Real.sin i :=
   aol_cos_sin μ a i v da di dOmega h
-
-/-- non-vacuity of `dkep2dv_triangle`'s hypotheses: `v = 1, a = 1, µ = 2, da = 1` gives `dv_a = 1`, `v_final = 2`,
-and with `dangle = π/2` (`di = π/2`): `dv = √5 ≠ 0`, `ratio = 1/√5`, far from 1 -/
-example : dkepDv 2 1 0 1 1 (Real.pi / 2) 0 ≠ 0 := by
-  rw [dkepDv_eq, dkepVFinal_eq, dkepDvA_eq, dkepDangle_eq]
-  have h0 : Real.sqrt ((Real.pi / 2) ^ 2 + (0 : ℝ) ^ 2 * Real.sin 0 ^ 2) = Real.pi / 2 := by
-    rw [show (Real.pi / 2) ^ 2 + (0 : ℝ) ^ 2 * Real.sin 0 ^ 2 = (Real.pi / 2) ^ 2 by ring]
-    exact Real.sqrt_sq (by positivity)
-  rw [h0, Real.cos_pi_div_two]
-  norm_num
 
 end dkep
 
